@@ -93,10 +93,11 @@ func checkProofTree(orig, pruned *ref.RCell, path string, prunedCount *int) erro
 
 // validateProof checks the bag of cells returned as a proof against the original root.
 func validateProof(proof []byte, origRoot *ref.RCell) (*ref.RCell, int, error) {
-	rr, err := ref.ParseBOC(proof)
+	info, err := ref.ParseBOCInfo(proof)
 	if err != nil {
 		return nil, 0, fmt.Errorf("reference parser rejects the proof BOC: %v", err)
 	}
+	rr := info.Roots
 	if len(rr) != 1 {
 		return nil, 0, fmt.Errorf("proof has %d roots", len(rr))
 	}
@@ -116,8 +117,15 @@ func validateProof(proof []byte, origRoot *ref.RCell) (*ref.RCell, int, error) {
 	if !bytes.Equal(mp.Refs[0].Hash(0), origRoot.ReprHash()) {
 		return nil, 0, fmt.Errorf("the pruned tree hashes (at level 0) to %x, not to the original root hash %x", mp.Refs[0].Hash(0), origRoot.ReprHash())
 	}
+	if d := mp.Refs[0].Depth(0); d != origRoot.Depth(0) {
+		return nil, 0, fmt.Errorf("the pruned tree has level-0 depth %d, the original root has depth %d", d, origRoot.Depth(0))
+	}
 	n := 0
 	if err := checkProofTree(origRoot, mp.Refs[0], "root", &n); err != nil {
+		return nil, 0, err
+	}
+	// the level masks tongo wrote into the descriptor bytes are the ones the content of the cells gives
+	if err := declaredMasks(info); err != nil {
 		return nil, 0, err
 	}
 	// tongo's own parser and hasher agree on the proof
@@ -185,6 +193,42 @@ var dictProof = &core.Check{Name: "c18/dict", Quick: 1200, Thorough: 100000, Fn:
 	_ = decoded
 	if err := decodeWithTongo(tt[0], n, e); err != nil {
 		return err
+	}
+	// the body of the proof is a partial dictionary (as a client holds it after a liteserver proof): proving the
+	// same key from it gives a proof of the ORIGINAL dictionary again - same header hash and depth (the siblings
+	// that are pruned branches already often stand for the deepest part), same pruned positions
+	if c.Intn("reprove", 3) == 0 {
+		fresh, ferr := boc.DeserializeBoc(proof)
+		if ferr != nil || len(fresh) != 1 {
+			return fmt.Errorf("tongo cannot parse the proof it produced: %v", ferr)
+		}
+		body := fresh[0].Refs()
+		if len(body) != 1 {
+			return fmt.Errorf("tongo reads its proof cell with %d references", len(body))
+		}
+		prover2, err := boc.NewMerkleProver(body[0])
+		if err != nil {
+			return fmt.Errorf("NewMerkleProver on the dictionary inside a proof: %v", err)
+		}
+		body[0].ResetCounters()
+		val2, proof2, err := tlb.ProveKeyInHashmap[tlb.Uint32](prover2, body[0], gen.BitString(e.Key))
+		if err != nil {
+			return fmt.Errorf("ProveKeyInHashmap for key %s on the dictionary inside its own proof: %v", e.Key, err)
+		}
+		if uint64(val2) != e.Value.Bits.Uint(0, 32) {
+			return fmt.Errorf("ProveKeyInHashmap on the dictionary inside a proof returned value %d for key %s, the dictionary holds %d", val2, e.Key, e.Value.Bits.Uint(0, 32))
+		}
+		mp2, _, err := validateProof(proof2, root)
+		if err != nil {
+			return fmt.Errorf("proof for key %s made from the dictionary inside the first proof (%d pruned branches, depth as it is %d, original depth %d): %v", e.Key, npruned, mp.Refs[0].Depth(3), root.Depth(0), err)
+		}
+		if !bytes.Equal(mp2.ReprHash(), mp.ReprHash()) {
+			return fmt.Errorf("proof for key %s made from the dictionary inside the first proof differs from the first proof (%x, first %x)", e.Key, mp2.ReprHash(), mp.ReprHash())
+		}
+		c.Class("key proven again from the dictionary inside its proof")
+		if mp.Refs[0].Depth(3) < root.Depth(0) {
+			c.Class("key proven again, pruned siblings hide the deepest part")
+		}
 	}
 	if len(entries) >= 3 || npruned >= 2 {
 		c.NonTrivial(root.ReprHash(), e.Key.String())
@@ -492,6 +536,10 @@ var cursorProof = &core.Check{Name: "c18/cursor", Quick: 1500, Thorough: 120000,
 		if !bytes.Equal(rr2[0].Data[1:33], root.ReprHash()) {
 			return fmt.Errorf("narrowed proof stores root hash %x, the original root hashes to %x", rr2[0].Data[1:33], root.ReprHash())
 		}
+		// header depth, every pruned branch (old ones that stay and new ones) and the declared level masks
+		if _, _, verr := validateProof(proof2, root); verr != nil {
+			return fmt.Errorf("narrowed proof (first proof pruned %d positions, %d more positions pruned in its body): %v", pruned, pr2, verr)
+		}
 		c.Class("narrowed proof")
 	}
 	if pruned > 0 && n == 0 {
@@ -550,7 +598,7 @@ func TestProp(t *testing.T) {
 	t.Run("cursor", func(t *testing.T) { core.Run(t, cursorProof) })
 }
 
-func TestReplay(t *testing.T) { core.Replay(t, dictProof, cursorProof) }
+func TestReplay(t *testing.T) { core.Replay(t, dictProof, cursorProof, partialProof) }
 
 func keys(m map[string]bool) []string {
 	var out []string
